@@ -1338,3 +1338,170 @@ Proof.
   - intros [X|[X|[X|[X|[X|[X|X]]]]]]; try lia; try congruence; try contradiction;
       try (left; exact X); try (right; exact X).
 Qed.
+
+(* ======================= custom buckets ======================= *)
+
+
+(* ---------- custom buckets: intersectCustomBucketBounds and Add/Sub ---------- *)
+
+Fixpoint zinc (lo : Z) (l : list Z) : Prop :=
+  match l with [] => True | x :: r => lo < x /\ zinc x r end.
+
+Lemma zinc_bound lo l z : zinc lo l -> In z l -> lo < z.
+Proof.
+  revert lo; induction l as [|x l IH]; intros lo H Hz; [destruct Hz|].
+  destruct H as [H1 H2]. destruct Hz as [->|Hz]; [exact H1|]. specialize (IH _ H2 Hz). lia.
+Qed.
+Lemma zinc_weaken lo lo' l : lo' <= lo -> zinc lo l -> zinc lo' l.
+Proof. destruct l; cbn; [tauto|]. intros ? [? ?]. split; [lia|assumption]. Qed.
+
+Lemma intersect_fuel_spec fuel : forall a b lo z, zinc lo a -> zinc lo b ->
+  (length a + length b <= fuel)%nat ->
+  (In z (intersect_fuel fuel a b) <-> In z a /\ In z b).
+Proof.
+  induction fuel as [|fuel IH]; intros a b lo z Ha Hb Hf.
+  - destruct a; destruct b; cbn in *; try lia; tauto.
+  - cbn [intersect_fuel]. destruct a as [|x a']; [cbn; tauto|]. destruct b as [|y b']; [cbn; tauto|].
+    destruct Ha as [Hx Ha']. destruct Hb as [Hy Hb']. cbn [length] in Hf.
+    destruct (x =? y) eqn:E1.
+    + apply Z.eqb_eq in E1. subst y. cbn [In].
+      rewrite (IH a' b' x z Ha' Hb' ltac:(lia)). tauto.
+    + apply Z.eqb_neq in E1. destruct (x <? y) eqn:E2.
+      * apply Z.ltb_lt in E2.
+        rewrite (IH a' (y :: b') x z Ha' (conj E2 Hb') ltac:(cbn [length]; lia)).
+        split; [intros [A B]; split; [right; exact A|exact B]|].
+        intros [[<-|A] B]; [|split; assumption].
+        exfalso. pose proof (zinc_bound x (y :: b') x (conj E2 Hb') B). lia.
+      * apply Z.ltb_ge in E2. assert (y < x) by lia.
+        rewrite (IH (x :: a') b' y z (conj H Ha') Hb' ltac:(cbn [length]; lia)).
+        split; [intros [A B]; split; [exact A|right; exact B]|].
+        intros [A [<-|B]]; [|split; assumption].
+        exfalso. pose proof (zinc_bound y (x :: a') y (conj H Ha') A). lia.
+Qed.
+
+(* the reconciled custom bounds are exactly the bounds present in both histograms *)
+Lemma intersect_spec a b lo z : zinc lo a -> zinc lo b ->
+  (In z (intersect a b) <-> In z a /\ In z b).
+Proof. intros Ha Hb. unfold intersect. apply (intersect_fuel_spec _ a b lo z Ha Hb). lia. Qed.
+
+Lemma is_custom_not_exp s : is_custom s = true -> is_exp s = false.
+Proof. unfold is_custom, customSchema, is_exp. intro H. apply Z.eqb_eq in H. subst s. reflexivity. Qed.
+
+(* Add / Sub / KahanAdd on two custom-bucket histograms *)
+Lemma arith_custom sgn h o :
+  is_custom (schema h) = true -> is_custom (schema o) = true ->
+  idx_nonneg (pos h) = true -> idx_nonneg (pos o) = true ->
+  exists r, arith sgn h o = Ok r /\
+    let R := ao_h r in
+    schema R = schema h /\ cnt R = cnt h + sgn * cnt o /\ sum R = sum h + sgn * sum o /\
+    zc R = zc h /\ zt R = zt h /\
+    (list_eqb (cv h) (cv o) = true ->
+       ao_reconciled r = false /\ cv R = cv h /\
+       forall t, total (pos R) t = total (pos h) t + sgn * total (pos o) t) /\
+    (list_eqb (cv h) (cv o) = false ->
+       ao_reconciled r = true /\ cv R = intersect (cv h) (cv o) /\
+       forall t, 0 <= t <= Z.of_nat (length (cv R)) ->
+         total (pos R) t = total (remap (cv R) (cv h) (pos h)) t +
+                           sgn * total (remap (cv R) (cv o) (pos o)) t).
+Proof.
+  intros Hh Ho Nh No. unfold arith. rewrite Hh, Ho. cbn [xorb].
+  destruct (adjust_hint (hint h) (hint o)) as [hint' coll]. rewrite Nh, No. cbn [andb negb].
+  destruct (list_eqb (cv h) (cv o)) eqn:E.
+  - eexists. split; [reflexivity|]. cbn [ao_h ao_reconciled schema cnt sum zc zt cv pos].
+    repeat split; try discriminate; try reflexivity.
+    intro t. rewrite total_merge_add.
+    unfold drop_below. rewrite (is_custom_not_exp _ Hh). reflexivity.
+  - eexists. split; [reflexivity|]. cbn [ao_h ao_reconciled schema cnt sum zc zt cv pos].
+    repeat split; try discriminate; try reflexivity.
+    intros t Ht. apply add_mism_total. exact Ht.
+Qed.
+
+(* where a source bucket with upper bound x goes: the first bound of the intersected layout
+   that is >= x; if there is none, the +Inf bucket (index = number of bounds) *)
+Lemma find_ge_some inter : forall x p r, find_ge inter x p = Some r ->
+  exists pre y post, inter = pre ++ y :: post /\ r = p + Z.of_nat (length pre) /\ x <= y /\
+                     Forall (fun z => z < x) pre.
+Proof.
+  induction inter as [|y inter IH]; intros x p r H; cbn [find_ge] in H; [discriminate|].
+  destruct (x <=? y) eqn:E.
+  - inversion H; subst. exists [], y, inter. apply Z.leb_le in E. repeat split; cbn; try lia. constructor.
+  - destruct (IH x (p + 1) r H) as (pre & y' & post & A & B & C & D).
+    exists (y :: pre), y', post. subst inter. repeat split; cbn [app length]; try lia.
+    constructor; [apply Z.leb_gt in E; lia|exact D].
+Qed.
+Lemma find_ge_none inter : forall x p, find_ge inter x p = None -> Forall (fun z => z < x) inter.
+Proof.
+  induction inter as [|y inter IH]; intros x p H; [constructor|]. cbn [find_ge] in H.
+  destruct (x <=? y) eqn:E; [discriminate|]. constructor; [apply Z.leb_gt in E; lia|apply (IH x (p + 1) H)].
+Qed.
+
+(* ======================= statements used verbatim by props/C31.v ======================= *)
+
+Lemma p_reduce_preserves_totals : forall sp bs l k t, expand sp bs = Ok l -> 0 <= k ->
+  total (reduce_abs k l) t = sumc (filter (fun b => target_idx (fst b) k =? t) l) /\
+  increasing (reduce_abs k l).
+Proof.
+  intros sp bs l k t H Hk. pose proof (expand_increasing _ _ _ H) as Hi. split.
+  - rewrite reduce_total by assumption. apply total_retarget.
+  - apply reduce_increasing; assumption.
+Qed.
+
+Lemma p_to_float_preserves : forall h,
+  let f := to_float h in
+  r_ps f = i_ps h /\ deltas_from 0 (r_pb f) = i_pd h /\ r_cnt f = i_cnt h /\ r_schema f = i_schema h /\
+  (is_custom (i_schema h) = false ->
+     r_ns f = i_ns h /\ deltas_from 0 (r_nb f) = i_nd h /\ r_zc f = i_zc h /\ r_zt f = i_zt h /\
+     abs_of_raw f = abs_of_raw (mkRF (i_hint h) (i_schema h) (i_zt h) (i_zc h) (i_cnt h) (i_sum h)
+                                     (i_ps h) (cumsum (i_pd h)) (i_ns h) (cumsum (i_nd h)) [])) /\
+  (is_custom (i_schema h) = true -> r_cv f = i_cv h /\ r_ns f = [] /\ r_nb f = [] /\ r_zc f = 0).
+Proof.
+  intro h. unfold to_float. destruct (is_custom (i_schema h)) eqn:E; cbn;
+    unfold cumsum; rewrite ?deltas_cumsum; repeat split; try reflexivity; try discriminate;
+    intros; try discriminate; repeat split; rewrite ?deltas_cumsum; reflexivity.
+Qed.
+
+Lemma p_detect_buckets_iff : forall prev cur, increasing prev -> increasing cur ->
+  (dr_lists prev cur = true <->
+   exists p, In p prev /\
+     match find_idx (fst p) cur with None => snd p <> 0 | Some c => c < snd p end).
+Proof.
+  intros prev cur Hp Hc. rewrite (dr_lists_spec prev cur Hp Hc), existsb_exists.
+  split; intros [p [Hin Hb]]; exists p; (split; [exact Hin|]); unfold bad in *;
+    destruct (find_idx (fst p) cur).
+  - apply Z.ltb_lt. exact Hb.
+  - unfold nonzero in Hb. apply negb_true_iff, Z.eqb_neq in Hb. exact Hb.
+  - apply Z.ltb_lt. exact Hb.
+  - unfold nonzero. apply negb_true_iff, Z.eqb_neq. exact Hb.
+Qed.
+
+Lemma p_detect_buckets_decreased : forall prev cur, increasing prev -> increasing cur ->
+  Forall (fun p => 0 <= snd p) prev ->
+  (dr_lists prev cur = true <-> exists p, In p prev /\ total cur (fst p) < snd p).
+Proof.
+  intros prev cur Hp Hc Hnn. rewrite (dr_lists_spec prev cur Hp Hc), existsb_exists.
+  rewrite Forall_forall in Hnn.
+  split; intros [p [Hin Hb]]; exists p; (split; [exact Hin|]).
+  - rewrite (bad_decreased cur p Hc (Hnn p Hin)), orb_false_r in Hb. apply Z.ltb_lt. exact Hb.
+  - rewrite (bad_decreased cur p Hc (Hnn p Hin)), orb_false_r. apply Z.ltb_lt. exact Hb.
+Qed.
+
+Lemma p_detect_reset_hint_and_type : forall c p,
+  (hint c = 1 -> detect_reset c p = Ok true) /\ (hint c = 2 -> detect_reset c p = Ok false) /\
+  (hint c <> 1 -> hint c <> 2 -> cnt p <= cnt c ->
+   (is_custom (schema c) = true /\ is_custom (schema p) = false) \/
+   (is_exp (schema c) = true /\ is_custom (schema p) = true) ->
+   detect_reset c p = Ok true).
+Proof.
+  intros c p. unfold detect_reset. repeat split.
+  - intros ->. reflexivity.
+  - intros ->. reflexivity.
+  - intros H1 H2 Hc Hx.
+    replace (hint c =? 1) with false by (symmetry; apply Z.eqb_neq; exact H1).
+    replace (hint c =? 2) with false by (symmetry; apply Z.eqb_neq; exact H2).
+    replace (cnt c <? cnt p) with false by (symmetry; apply Z.ltb_ge; exact Hc).
+    destruct Hx as [[E1 E2]|[E1 E2]].
+    + rewrite E1, E2. reflexivity.
+    + destruct (is_exp_facts _ E1) as (C1 & L1 & U1). rewrite C1. cbn [andb].
+      unfold is_custom, customSchema in E2. apply Z.eqb_eq in E2.
+      replace (schema p <? schema c) with true by (symmetry; apply Z.ltb_lt; lia). reflexivity.
+Qed.
